@@ -58,11 +58,11 @@ def gen_node(rng, depth, want_opts, leaf_bias=0.0):
     return n
 
 
-def gen_cfg(rng, want_opts, big=False):
+def gen_cfg(rng, want_opts, big=False, thorough=False):
     cfg = {"addresses": [], "addresses_yaml": [], "pol": [],
            "top": {"dns": ["self"], "search": ["empty"], "portal": ["null"]}}
     if rng.random() < 0.7 or big:
-        plen = rng.choice([24, 25, 26, 27, 28, 29, 30]) if not big else rng.choice([8, 12, 16, 20, 21, 22, 23])
+        plen = rng.choice([24, 25, 26, 27, 28, 29, 30]) if not big else rng.choice([8, 12, 16, 20, 21, 22, 23] if thorough else [13, 16, 20, 21, 22, 23])
         net = N1 if not big else 0          # 10.0.0.0/8.. for big ones
         if big and plen > 8:
             net = N1 - (N1 % (2 ** (32 - plen)))
@@ -107,9 +107,9 @@ def server_ips(rng, cfg):
     return ips
 
 
-def gen_case(rng, kind):
+def gen_case(rng, kind, thorough=False):
     big = kind == "probe"
-    cfg = gen_cfg(rng, kind == "opts", big)
+    cfg = gen_cfg(rng, kind == "opts", big, thorough)
     reqs = []
     sips = server_ips(rng, cfg)
     for _ in range(3 if kind != "probe" else 2):
@@ -183,7 +183,7 @@ def check(pid, tier):
         n_enum = len(enum)
         for kind in KIND_OF[pid]:
             for _ in range(n[kind]):
-                cases.append(gen_case(run.rng, kind))
+                cases.append(gen_case(run.rng, kind, run.thorough))
         total, nlines, samples = {}, 0, []
         for bi, part in enumerate(chunks(cases, 150)):
             cf = run.path("cases-%d.ndjson" % bi)
